@@ -36,15 +36,32 @@ class SRecord:
         return line
 
 
-def write_srecord(obj, f):
-    """Write object to srecord"""
-    data = obj.get_section("code").data
-    record = SRecord(1, 0, b"HDR")
+def write_srecord(obj, f, header=b"HDR"):
+    """Write the code section of an object as s-records.
+
+    The header text goes into a header (S0) record. The code is
+    located at the address of the code section. The narrowest address
+    size which can hold all addresses is used: S1/S9 records (16 bits),
+    S2/S8 records (24 bits) or S3/S7 records (32 bits).
+    """
+    section = obj.get_section("code")
+    data = bytes(section.data)
+    address = section.address
+    end_address = address + len(data)
+    if end_address <= 0x10000:
+        data_typ, end_typ = 1, 9
+    elif end_address <= 0x1000000:
+        data_typ, end_typ = 2, 8
+    elif end_address <= 0x100000000:
+        data_typ, end_typ = 3, 7
+    else:
+        raise ValueError("Code does not fit in a 32 bits address space")
+
+    record = SRecord(0, 0, header)
     print(record.to_line(), file=f)
-    address = 0
     for chunk in chunks(data):
-        record = SRecord(1, address, chunk)
+        record = SRecord(data_typ, address, chunk)
         print(record.to_line(), file=f)
         address += len(chunk)
-    record = SRecord(9, 0, bytes())
+    record = SRecord(end_typ, 0, bytes())
     print(record.to_line(), file=f)
